@@ -159,7 +159,7 @@ def check_coverage(ctx, chk):
     detail = f"{len(ex)} exploit patch, {len(pe)} escalation patch, {len(rs)} raise, " \
              f"{len(s.returns)} return(s)"
     if ok:
-        host, lvl = fi.params[1], fi.params[2]
+        host, lvl = fi.rparams[1], fi.rparams[2]
         a_ex = [cn.show(a) for a in ex[0].data["args"][1:]]
         a_pe = [cn.show(a) for a in pe[0].data["args"][1:]]
         r_ex = cn.show(ex[0].data["result"])
@@ -185,7 +185,7 @@ def check_coverage(ctx, chk):
     # _host_is_vulnerable predicate
     fi, ip, s, cn = method_run(ctx, "_host_is_vulnerable", no_inline=(
         "_host_is_vulnerable_to_exploit", "_host_is_vulnerable_to_privesc"))
-    host, lvl = fi.params[1], fi.params[2]
+    host, lvl = fi.rparams[1], fi.rparams[2]
     G_ = f"{GEN_MOD}:ScenarioGenerator."
     E, P = "G.exploits[each(G.exploits)]", "G.privescs[each(G.privescs)]"
     from .shapes import truth_of_returns
@@ -201,7 +201,7 @@ def check_coverage(ctx, chk):
     for meth, tab, key in (("_host_is_vulnerable_to_exploit", "services", "service"),
                            ("_host_is_vulnerable_to_privesc", "processes", "process")):
         fi, ip, s, cn = method_run(ctx, meth)
-        h, d = fi.params[1], fi.params[2]
+        h, d = fi.rparams[1], fi.rparams[2]
         true_f = f_or([f_and([cn.conj(pc), cn.formula(t)]) for pc, t in s.returns])
         want = f_and([A(f"{h}.{tab}[{d}['{key}']]"),
                       f_or([A(f"None is {d}['os']"), A(f"{h}.os[{d}['os']]")])])
@@ -223,7 +223,7 @@ def check_patching(ctx, chk):
         except Exception as e:       # anchor renamed: not decided
             chk.undecided("C16.patch", what + "helper found", str(e)[:120])
             continue
-        host, oc = fi.params[1], fi.params[2]
+        host, oc = fi.rparams[1], fi.rparams[2]
         D = f"G.{table}[each(G.{table})]"
         FILT = f"[{D} for each(G.{table}) if ({D}['os'] is None | {host}.os[{D}['os']])]"
         ALL = f"list(G.{table}.values())"
@@ -271,7 +271,7 @@ def check_patching(ctx, chk):
     # _update_host_os: exactly the given OS afterwards
     try:
         fi, ip, s, cn = method_run(ctx, "_update_host_os")
-        host, osn = fi.params[1], fi.params[2]
+        host, osn = fi.rparams[1], fi.rparams[2]
         sts = [ev for ev in s.events if ev.kind == "store" and ev.data["target"] == "sub"
                and cn.show(ev.data["base"]) == f"{host}.os"]
         clear = [ev for ev in sts if ev.data["value"] in (C(False), C(0))
@@ -291,7 +291,7 @@ def check_patching(ctx, chk):
         fi, ip, s, cn = method_run(ctx, "_is_sensitive_host")
         txt = [cn.show(t) for _, t in s.returns]
         chk.ob("C16.patch", "_is_sensitive_host(addr) = addr in sensitive_hosts",
-               txt == [f"{fi.params[1]} in G.sensitive_hosts"], str(txt), fi.module.path)
+               txt == [f"{fi.rparams[1]} in G.sensitive_hosts"], str(txt), fi.module.path)
     except Exception as e:
         chk.undecided("C16.patch", "_is_sensitive_host: helper found", str(e)[:120])
 
